@@ -30,7 +30,7 @@ func c15Text(vals []uint64, race bool) []byte {
 	var b strings.Builder
 	if !race {
 		fmt.Fprintf(&b, "goroutine 1 [running]:\nmain.f0(%s, {%s})\n\t/a/b.go:1 +0x1\nmain.f1(%s)\n\t/a/b.go:2 +0x1\n\n", v(0), v(1), v(2))
-		fmt.Fprintf(&b, "goroutine 2 [select]:\nmain.g0(%s, {{%s}, 0x1})\n\t/a/b.go:3 +0x1\n", v(3), v(4))
+		fmt.Fprintf(&b, "goroutine 2 [select]:\nmain.g0(%s, {{{{{%s}}}}}, {0x1})\n\t/a/b.go:3 +0x1\n", v(3), v(4))
 		if len(vals) > 6 {
 			fmt.Fprintf(&b, "main.g1({0x2, %s})\n\t/a/b.go:4 +0x1\n", v(6))
 		}
